@@ -198,6 +198,8 @@ class Snapshot:
     def __init__(self, callers, module):
         self.callers = {k: TensorSnap(k, t) for k, t in callers.items() if isinstance(t, torch.Tensor)}
         self.state = {k: TensorSnap(k, t) for k, t in named_state(module).items()}
+        # the mode flags are state too: a call must leave every sub-module in the mode it found it in
+        self.modes = {n: bool(m.training) for n, m in module.named_modules()} if isinstance(module, torch.nn.Module) else {}
 
     def changed(self, after):
         """-> dict name -> reasons, over callers and state (names that disappeared / appeared are reported too)"""
@@ -214,6 +216,9 @@ class Snapshot:
             for k in grp_a:
                 if k not in grp_b:
                     ch[k] = ['added']
+        for n, tr in self.modes.items():
+            if n in after.modes and after.modes[n] != tr:
+                ch['B:' + (n + '.' if n else '') + 'training (mode flag)'] = ['training %s -> %s' % (tr, after.modes[n])]
         return ch
 
 
